@@ -5,7 +5,7 @@ from contracts import py_tetrahedron as PT
 from contracts import c_rgrid as RG
 
 
-def build(run):
+def build(run, with_vertex=True):
     gen = T.generic_contracts()
     run.verify_c(T.region_instances(gen))
     pref = "c/tetrahedron_method.c:regions"
@@ -14,7 +14,8 @@ def build(run):
     run.verify_c([so])
     reg = dict(gen)
     reg["sort_omegas"] = so
-    run.verify_c(T.weight_contracts() + T.top_contracts() + T.vertex_contracts(run.finding_status("E4") == "known"), registry=reg)
+    vc = T.vertex_contracts(run.finding_status("E4") == "known") if with_vertex else []
+    run.verify_c(T.weight_contracts() + T.top_contracts() + vc, registry=reg)
     cs, reg2 = RG.all_contracts()
     run.verify_c(cs, registry=reg2)
     # Python implementation: same terms, same ladder
